@@ -13,7 +13,7 @@ import (
 )
 
 const (
-	NS     = "http://ex.org/v#"  // namespace bound to prefix `ex` in generated profiles
+	NS     = "http://ex.org/v#" // namespace bound to prefix `ex` in generated profiles
 	NodeNS = "http://ex.org/n/" // node ids
 	XSD    = "http://www.w3.org/2001/XMLSchema#"
 )
@@ -80,8 +80,8 @@ type Val struct {
 	Node int  `json:"node"` // valid when Lit == nil
 }
 
-func LV(l Lit) Val  { return Val{Lit: &l} }
-func NV(i int) Val  { return Val{Node: i} }
+func LV(l Lit) Val         { return Val{Lit: &l} }
+func NV(i int) Val         { return Val{Node: i} }
 func (v Val) IsNode() bool { return v.Lit == nil }
 
 // Node is one node of the abstract graph. Props maps a full property IRI to values.
@@ -173,20 +173,20 @@ func (n *Node) SortedProps() []string {
 // expanded form: a top-level array of flat nodes with absolute IRIs, every
 // value wrapped ({"@value":x} / {"@id":y}) inside an array.
 type LDOpts struct {
-	Context     bool   `json:"context,omitempty"`     // use an @context with prefix `ex:` (and `n:` for ids)
-	Vocab       bool   `json:"vocab,omitempty"`       // @vocab instead of the ex: prefix (needs Context)
-	Base        bool   `json:"base,omitempty"`        // @base + relative node ids (needs Context)
-	Embed       bool   `json:"embed,omitempty"`       // embed a node at its first reference instead of listing it flat
-	GraphWrap   int    `json:"graph_wrap,omitempty"`  // 0 top-level array, 1 {"@graph":[…]}, 2 single object when one root
-	NodeOrder   []int  `json:"node_order,omitempty"`  // permutation of node indexes (nil = identity)
-	KeyRot      int    `json:"key_rot,omitempty"`     // rotate the sorted key list of every object by this much
-	Unwrap1     bool   `json:"unwrap1,omitempty"`     // single value instead of a 1-element array
-	TypeString  bool   `json:"type_string,omitempty"` // @type as string when there is one class
-	TypeRev     bool   `json:"type_rev,omitempty"`    // list the classes of a node in reverse order
-	NativeLit   bool   `json:"native_lit,omitempty"`  // x instead of {"@value":x}
-	DupValues   bool   `json:"dup_values,omitempty"`  // repeat the first value of multi-valued properties
-	SplitNodes  bool   `json:"split_nodes,omitempty"` // emit nodes with >1 property as two entries with the same @id
-	Indent      int    `json:"indent,omitempty"`      // 0 compact, n spaces
+	Context    bool  `json:"context,omitempty"`     // use an @context with prefix `ex:` (and `n:` for ids)
+	Vocab      bool  `json:"vocab,omitempty"`       // @vocab instead of the ex: prefix (needs Context)
+	Base       bool  `json:"base,omitempty"`        // @base + relative node ids (needs Context)
+	Embed      bool  `json:"embed,omitempty"`       // embed a node at its first reference instead of listing it flat
+	GraphWrap  int   `json:"graph_wrap,omitempty"`  // 0 top-level array, 1 {"@graph":[…]}, 2 single object when one root
+	NodeOrder  []int `json:"node_order,omitempty"`  // permutation of node indexes (nil = identity)
+	KeyRot     int   `json:"key_rot,omitempty"`     // rotate the sorted key list of every object by this much
+	Unwrap1    bool  `json:"unwrap1,omitempty"`     // single value instead of a 1-element array
+	TypeString bool  `json:"type_string,omitempty"` // @type as string when there is one class
+	TypeRev    bool  `json:"type_rev,omitempty"`    // list the classes of a node in reverse order
+	NativeLit  bool  `json:"native_lit,omitempty"`  // x instead of {"@value":x}
+	DupValues  bool  `json:"dup_values,omitempty"`  // repeat the first value of multi-valued properties
+	SplitNodes bool  `json:"split_nodes,omitempty"` // emit nodes with >1 property as two entries with the same @id
+	Indent     int   `json:"indent,omitempty"`      // 0 compact, n spaces
 }
 
 type omap struct {
